@@ -17,7 +17,7 @@ git apply "$P" || { echo "patch does not apply"; exit 9; }
 # point the hooks of the scratch tree at the snapshot's harness files
 grep -rl '"/verif/kani/' $W --include=*.rs | xargs sed -i "s#\"/verif/kani/#\"$S/kani/#"
 mkdir -p /tmp/mut-evidence
-cd $S && VERIF_REPO=$W VERIF_EVIDENCE_DIR=/tmp/mut-evidence ./check $ID > /tmp/try_mut_$ID.log 2>&1; rc=$?
+cd $S && VERIF_NO_REPLAY=1 VERIF_REPO=$W VERIF_EVIDENCE_DIR=/tmp/mut-evidence ./check $ID > /tmp/try_mut_$ID.log 2>&1; rc=$?
 [ -n "$TAG" ] && cp /tmp/try_mut_$ID.log /tmp/try_mut_${ID}_$TAG.log
 git -C $W checkout -- .
 echo "check $ID rc=$rc"; grep -E "^VIOLATION|^UNDECIDED|refuted|KNOWN" /tmp/try_mut_$ID.log | cut -c1-400
